@@ -16,7 +16,7 @@ var allUnary = []peg.Kind{peg.KOpt, peg.KStar, peg.KPlus, peg.KAnd, peg.KNot}
 func init() {
 	register(&Check{
 		ID: "C01", Level: "exploration", QuickSecs: 150, ThoroughSecs: 1500,
-		Rule:        "all grammars S <- v:(body){probe} with body over {'a','b',\"ab\",\"\",[ab],[^a],.} x {?,*,+,&,!} x seq/choice (arity<=3) up to N nodes (quick 5, thorough 6), a second family with i-flag/Unicode terminals, a two-rule family with every Entrypoint, every single label+action decoration of bodies up to 4 nodes, left-recursive grammars generated with -support-left-recursion (direct tower, indirect pairs in both name orders; default options and Memoize(true)), rule graphs (reference graphs over four rules with dead, shared and recursive rules) generated with -optimize-grammar, a case sweep (EVERY rune with a case variant below U+3000 and in the later cased blocks as i-literal, as first rune of a longer i-literal and as i-class, against each member of its case orbit), and a family generated with -optimize-grammar (one leaf rule inlined at two places next to different neighbours, compared on success, prefix and flat value); x all inputs over the family's alphabet up to L; x 4 generation flag sets; each compared with the reference PEG interpreter (success, consumed prefix, exact value shape). Non-trivial = the reference backtracked over consumed input. Plus the cross family (cross.go: ALL bodies of <= 3 nodes - thorough 4 - over every expression kind of the grammar language, terminals incl. a mixed-case i-class, an action rule R - left-recursive under -support-left-recursion - and a terminal-only rule T with display names; x all 16 combinations of -optimize-parser, -optimize-basic-latin, -optimize-grammar, -support-left-recursion; entry at S and at R; 25 inputs incl. a capital, a two-byte rune, newlines, invalid bytes); every 10th case is followed by a call on the NEXT input with the same option values (must equal that input alone), every other 10th by the same call again.",
+		Rule:        "all grammars S <- v:(body){probe} with body over {'a','b',\"ab\",\"\",[ab],[^a],.} x {?,*,+,&,!} x seq/choice (arity<=3) up to N nodes (quick 5, thorough 6), a second family with i-flag/Unicode terminals, a memo-table family (a sequence-valued rule matched inside a failing sequence and again at the same offset inside sequences with other item counts; 9 grammars, inputs up to 6, default options and Memoize), a two-rule family with every Entrypoint, every single label+action decoration of bodies up to 4 nodes, left-recursive grammars generated with -support-left-recursion (direct tower, indirect pairs in both name orders; default options and Memoize(true)), rule graphs (reference graphs over four rules with dead, shared and recursive rules) generated with -optimize-grammar, a case sweep (EVERY rune with a case variant below U+3000 and in the later cased blocks as i-literal, as first rune of a longer i-literal and as i-class, against each member of its case orbit), and a family generated with -optimize-grammar (one leaf rule inlined at two places next to different neighbours, compared on success, prefix and flat value); x all inputs over the family's alphabet up to L; x 4 generation flag sets; each compared with the reference PEG interpreter (success, consumed prefix, exact value shape). Non-trivial = the reference backtracked over consumed input. Plus the cross family (cross.go: ALL bodies of <= 3 nodes - thorough 4 - over every expression kind of the grammar language, terminals incl. a mixed-case i-class, an action rule R - left-recursive under -support-left-recursion - and a terminal-only rule T with display names; x all 16 combinations of -optimize-parser, -optimize-basic-latin, -optimize-grammar, -support-left-recursion; entry at S and at R; 25 inputs incl. a capital, a two-byte rune, newlines, invalid bytes); every 10th case is followed by a call on the NEXT input with the same option values (must equal that input alone), every other 10th by the same call again.",
 		Assumptions: []string{"runtime loaded through E1 (emitted grammar literal rebuilt in-process into the working tree's static code); bound to the compiler path by the conformance check", "code blocks are scripted probes"},
 		Run:         runC01,
 	})
@@ -88,6 +88,34 @@ func runC01(c *ShardCtx) {
 				continue
 			}
 			runGrammar(c, wrap(peg.Seq(h.Clone(), peg.Opt(h.Clone()))), famH)
+		}
+	}
+	// family 2c: value shapes under the memo table - a sequence-valued rule P matched inside a sequence
+	// that fails afterwards and evaluated again at the same offset inside a sequence with ANOTHER
+	// number of items, alone, in a loop and below an outer sequence; default options and Memoize(true)
+	// (the value a rule returned once must not change when a later sequence is built)
+	{
+		lit := peg.Lit
+		ps := []func() *peg.Expr{
+			func() *peg.Expr { return peg.Seq(peg.Cls(false, false, "a", "b"), peg.Cls(false, false, "a", "b")) },
+			func() *peg.Expr { return peg.Seq(lit("a"), peg.Opt(lit("b")), peg.Star(lit("a"))) },
+			func() *peg.Expr { return peg.Plus(peg.Seq(lit("a"), peg.Opt(lit("b")))) },
+		}
+		ts := []func() *peg.Expr{
+			func() *peg.Expr { return peg.Choice(peg.Seq(peg.Ref("P"), lit("b")), peg.Seq(peg.Ref("P"), lit("a"), lit("a"))) },
+			func() *peg.Expr { return peg.Star(peg.Choice(peg.Seq(peg.Ref("P"), lit("b"), lit("b")), peg.Seq(peg.Ref("P"), lit("a")), peg.Ref("P"))) },
+			func() *peg.Expr { return peg.Seq(peg.Opt(lit("b")), peg.Choice(peg.Seq(peg.Ref("P"), lit("b")), peg.Seq(peg.Ref("P"), peg.Ref("P"), lit("a")), peg.Seq(peg.Ref("P"), lit("a"), lit("a"), peg.Opt(lit("b")))), peg.Not(peg.Any())) },
+		}
+		famM := &family{gens: gens2, inputs: peg.Inputs([]string{"a", "b"}, 6), opts: []rtapi.RunOpts{{MaxExpr: 3000}, {MaxExpr: 3000, Memoize: true}},
+			nontrivial: func(ref *peg.Result, _ *rtapi.Obs) bool { return ref.Matched && ref.Backtracked }, confEvery: 3, confQuota: 1}
+		for _, p := range ps {
+			for _, t := range ts {
+				idx++
+				if !c.Mine(idx) {
+					continue
+				}
+				runGrammar(c, wrap(t(), &peg.Rule{Name: "P", Expr: p()}), famM)
+			}
 		}
 	}
 	// family 3: two rules, every entrypoint
